@@ -1886,6 +1886,12 @@ def run(ctx):
                 tk = r.lines[j].split()
                 if tk[1] == 'mirror' and tk[2] in ('forward', 'backward'):
                     vec = eval_formal_field(got)
+                    # the power the model computes (`power`, exact) against the power of the field the code returned
+                    pw_model = float(Fraction(got.split()[3].split(':')[0]))
+                    pw_impl = float(np.sum(np.abs(np.asarray(r.numeric[j])) ** 2))
+                    if np.isfinite(pw_impl) and not abs(pw_model - pw_impl) <= 1e-9 * max(pw_model, 1e-300):
+                        ctx.disagree(stream + ' power', {'line': r.lines[j], 'impl': pw_impl, 'model': pw_model, 'case': case})
+                        break
                 elif tk[1] == 'seginfl':
                     body = got.split()[1]
                     vec = np.concatenate([parse_vec(rw) for rw in body.split(';')]) if body != '-' else np.zeros(0, dtype=complex)
